@@ -506,7 +506,7 @@ def keyholder_script(rng, name, final):
     return Script(name, ops, {"suite": "node", "noshrink": True})
 
 
-def long_session_script(rng, name, seconds, drop_at=(), replay_age=(2, 3), expect_from=None):
+def long_session_script(rng, name, seconds, drop_at=(), replay_age=(2, 3), expect_from=None, stale_ping_at=()):
     """two nodes, one session over many rotation intervals (the rotation counter and the replay window are driven by housekeeping calls): every second a
     payload datagram in each direction; each is replayed after the receiver has ticked `replay_age` times (C03: it must be dead by then); everything in
     flight is dropped during the seconds in `drop_at` (a lost rotation message only postpones the key change, C07); at the end both sealing keys must have
@@ -522,6 +522,10 @@ def long_session_script(rng, name, seconds, drop_at=(), replay_age=(2, 3), expec
             ops += ["ndropfrom 1", "ndropfrom 2"]
         else:
             ops += drain(8)
+        if t in stale_ping_at:
+            # the first handshake's ping is replayed from its original source: node 2 holds a pending attempt for node 1's address for the next
+            # 120 ticks, next to the established session — whose replay window must keep moving all the same
+            ops += ["nreplay w0 2 orig", "ndrop 0", "ndrop 0"]
         # replays of payload datagrams whose receiver has ticked often enough since
         keep = []
         for (nm, victim, born) in marks:
